@@ -248,8 +248,10 @@ def gen_cvt(rng):
     off = rng.choice([0, 0, 0, 1, 2]) * (100.0 if dt == "f32" else 5e5) * scale
     if off:
         n = rng.choice([16, 40, 64])
+    # range widths that differ between the dimensions (a search in range-normalised coordinates is not Euclidean)
+    aspect = [1.0] * nd if rng.random() < 0.4 else [rng.choice([1.0, 1.0, 25.0, 100.0, 0.125]) for _ in range(nd)]
     return {"kind": "cvt", "dtype": dt, "nd": nd, "n": n, "method": method, "scale": scale, "off": off,
-            "seed": rng.randrange(10**6),
+            "aspect": aspect, "seed": rng.randrange(10**6),
             "ops": [[rng.random() for _ in range(nd)] + [rng.choice(["in", "in", "cent", "mid", "out"])]
                     for _ in range(rng.randint(6, 25))]}
 
@@ -261,7 +263,8 @@ def cvt_archives(case):
     s = case["scale"]
     r = random.Random(case["seed"])
     off = case.get("off", 0.0)
-    ranges = [(off * (k + 1) - s, off * (k + 1) + s) for k in range(nd)]
+    asp = case.get("aspect") or [1.0] * nd
+    ranges = [(off * (k + 1) - s * asp[k], off * (k + 1) + s * asp[k]) for k in range(nd)]
     meth = case["method"]
     if meth in ("kmeans", "random", "scrambled_sobol", "halton"):
         first = CVTArchive(solution_dim=1, cells=n, ranges=ranges, centroid_method=meth, samples=max(200, 10 * n),
@@ -269,15 +272,15 @@ def cvt_archives(case):
         cents = np.array(first.centroids)
     else:
         if meth == "custom":
-            cents = np.array([[off * (k + 1) + r.uniform(-s, s) for k in range(nd)] for _ in range(n)])
+            cents = np.array([[off * (k + 1) + r.uniform(-s, s) * asp[k] for k in range(nd)] for _ in range(n)])
         elif meth == "clustered":
-            c0 = [off * (k + 1) + r.uniform(-s, s) for k in range(nd)]
+            c0 = [off * (k + 1) + r.uniform(-s, s) * asp[k] for k in range(nd)]
             cents = np.array([[c + r.uniform(-1, 1) * s * 1e-7 for c in c0] for _ in range(n)])
         elif meth == "dup":
-            base = [[off * (k + 1) + r.uniform(-s, s) for k in range(nd)] for _ in range(max(1, n // 2))]
+            base = [[off * (k + 1) + r.uniform(-s, s) * asp[k] for k in range(nd)] for _ in range(max(1, n // 2))]
             cents = np.array([base[r.randrange(len(base))] for _ in range(n)])
         else:
-            cents = np.array([[off * (k + 1) + s * (r.randrange(-4, 5) / 4) for k in range(nd)] for _ in range(n)])
+            cents = np.array([[off * (k + 1) + s * asp[k] * (r.randrange(-4, 5) / 4) for k in range(nd)] for _ in range(n)])
         cents = cents.astype(NP[dt])
     out = {}
     for name, kw in [("kd_tree", {"use_kd_tree": True}), ("brute", {"use_kd_tree": False}),
@@ -293,20 +296,21 @@ def run_cvt(case, drv):
     s = case["scale"]
     r = random.Random(case["seed"] + 1)
     rep = np.array(archs["brute"].centroids)
+    asp = case.get("aspect") or [1.0] * case["nd"]
     drv.ask("cvtset " + ";".join(ql(fx(x) for x in c) for c in rep))
     pts = []
     for op in case["ops"]:
         st = op[-1]
         off = case.get("off", 0.0)
         if st == "in":
-            p = [off * (k + 1) + (2 * t - 1) * s for k, t in enumerate(op[:-1])]
+            p = [off * (k + 1) + (2 * t - 1) * s * asp[k] for k, t in enumerate(op[:-1])]
         elif st == "cent":
             p = [float(x) for x in rep[r.randrange(len(rep))]]
         elif st == "mid":
             a, b = rep[r.randrange(len(rep))], rep[r.randrange(len(rep))]
             p = [(float(x) + float(y)) / 2 for x, y in zip(a, b)]
         else:
-            p = [off * (k + 1) + (2 * t - 1) * s * r.choice([3, 1e3, 1e9]) for k, t in enumerate(op[:-1])]
+            p = [off * (k + 1) + (2 * t - 1) * s * asp[k] * r.choice([3, 1e3, 1e9]) for k, t in enumerate(op[:-1])]
         pts.append([float(NP[dt](x)) for x in p])
     arr = np.array(pts, dtype=NP[dt])
     tol = 16 * U[dt] * (case["nd"] + 2)
